@@ -499,7 +499,9 @@ static void checkLive(Checker& c, Rng& rng, const Pvt&, const PvtxTab& t, bool o
                 c.within("bracket:" + K + ":" + Mn, "bracket", std::string(Mn) + " on " + w2.str(), mm.v, b.rows[k].mu * u.visc, b.rows[k + 1].mu * u.visc);
             }
         }
-        if (b.rows.size() == 1) {
+        if (b.rows.size() == 1 && !(!oil && sat[i].R <= 0.0)) {
+            // (a dry gas node, saturated Rv = 0, has no undersaturated side: a point "below" it would have a negative Rv, which is
+            // not an input of the functions; thorough tier seed 2 case 619261 compared derivatives there)
             // this branch is extended by the model from a master branch: no tabulated numbers beyond the saturated
             // node, but the functions must be finite there and their derivatives consistent
             size_t m = i + 1;
